@@ -38,6 +38,13 @@ def make_summary(rnd, ids, n_images, conv):
              ("Ach", "TimeCheck", "GOOD"), ("Ach", "AttitudeCheck", ""), ("Ach", "AbsoluteNavigationStatus", rnd.choice(["", "OK"])),
              ("Rad", "PracticeResultCode", "GOOD"), ("Lbi", "Satellite", "ALOS2"), ("Lbi", "Sensor", "SAR"), ("Lbi", "ProcessLevel", p["slots"]["level"]),
              ("Lbi", "ProcessFacility", rnd.choice(["SCMO", "EICS"])), ("Lbi", "ObservationDate", f"{y:04d}{mo:02d}{d:02d}")]
+    # entries that fall under a PATTERN of the conversion table (Conv), not under one of its literal keys: other date-time keywords of the
+    # image section, other float keywords, other autocheck / label keys
+    if rnd.random() < 0.5:
+        at = rnd.randrange(len(lines) + 1)
+        lines[at:at] = [("Img", rnd.choice(["FrameSceneCenterDateTime", "FirstLineDateTime", "DateTimeOfLastLine"]), f"{y:04d}{mo:02d}{d:02d} 07:08:09.010"),
+                        ("Img", rnd.choice(["ImageSceneRightBottomLongitude", "IncidenceAngleAtCentre"]), f"{rnd.uniform(-180, 180):.3f}"),
+                        ("Ach", rnd.choice(["OrbitCheck", "GainCheck"]), rnd.choice(["", "GOOD"])), ("Lbi", "Remarks", rnd.choice(weird))]
     return lines, p, scene, (y, mo, d), orbit, frame
 
 
@@ -114,6 +121,8 @@ def run_case(case):
             extra_shapes[str(idx)] = (100 + idx, 7 + idx)
             shape_lines += [("Pdi", f"NoOfPixels_{idx}", str(100 + idx)), ("Pdi", f"NoOfLines_{idx}", str(7 + idx))]
     allines = lines + [("Pdi", f"CntOfL{lv}ProductFileName", str(len(names)))] + file_lines + shape_lines
+    if case.get("long"):   # a summary of a few hundred lines (notes, remarks): the number of lines -- and of malformed ones -- is not bounded
+        allines += [(("Odi", "Scs", "Pdi", "Rad", "Lbi")[j % 5], f"Note{j:03d}", rnd.choice(["", "x", "a b", "see above"])) for j in range(case["long"])]
     # any order within and across sections
     if case["shuffle"] == "full":
         rnd.shuffle(allines)
@@ -234,6 +243,9 @@ def body(chk):
     for i in range(n_bad):
         cases.append(dict(seed=chk.seed + 5000 + i, n_img=1 + i % 3, shuffle=("none", "full")[i % 2], crlf=bool(i % 3 == 0), n_bad=1 + (i % 5 if i % 7 else 12),
                           kinds=kinds if i % 2 else [kinds[i % len(kinds)]], fs="local", tables=tables, ids=ids))
+    for i, nb in enumerate((99, 100, 101, 150, 230, 0)):
+        cases.append(dict(seed=chk.seed + 9000 + i, n_img=1 + i % 2, shuffle=("none", "full")[i % 2], crlf=bool(i % 2), n_bad=nb, kinds=kinds if nb else [], fs="local",
+                          tables=tables, ids=ids, long=200))
     lc.prepare_layouts([dict(level=lv, images=[("HH", None, 2 + i % 3, 1 + i % 2) for i in range(n)]) for lv in ("1.1", "1.5", "3.1") for n in range(0, 9)])
     results = checklib.pmap(run_case, cases, chk.scratch, chunksize=8)
     for res in results:
